@@ -55,6 +55,7 @@ int cmd_trace(int, char**);
 int cmd_serial(int, char**);
 int cmd_api(int, char**);
 int cmd_dq(int, char**);
+int cmd_threads(int, char**);
 int cmd_json(int, char**);
 int cmd_promela(int, char**);
 int cmd_lua(int, char**);
